@@ -117,6 +117,8 @@ def _(u):
         out = u.run(UT, "RewardScaler.__call__", x, selfobj=obj, record=False)
         n2, mu2, M22 = (_scalar(obj._attrs[k]) for k in ("count", "mean", "M2"))
         # every call observes its whole batch, whatever its size (a batch of one value included)
+        u.native("rl.reward_scaler.call")
+        u.native_out(f"count_{mode}", z3.ToReal(n2) if z3.is_expr(n2) and n2.sort() == z3.IntSort() else n2)
         u.prove(f"call.{mode}.observes-the-batch", n2 == n + m, tags=("C20",))
         std = ops.UF["sqrt"](M22 / z3.ToReal(n2 - 1))  # sample standard deviation of everything observed (incl. this batch)
         if mode == "norm":
